@@ -123,6 +123,7 @@ func c05Run(c *run.Ctx, ci int, k c05Case) {
 	w.AddClient(world.ClientSpec{ID: "c5-other", Secret: "s5o", RedirectURIs: []string{"https://c5o.example/cb"}, GrantTypes: grants, ResponseTypes: world.AllResponseTypes, Scopes: registered, Audience: allAud})
 	s := sim.New(w, c, "refresh-cross-client", "refresh-issued-against-rule", "payload", "refresh-after-registration-narrowed", "rightful-refresh-refused", "refresh-without-client-grant", "dead-unexpected")
 	caseID := fmt.Sprint(ci)
+	s.CaseID = caseID
 	granted := k.Granted
 	var g *sim.Grant
 	switch k.Origin {
